@@ -5,7 +5,7 @@
      scr t        : (tw + bw + lw + #tabs + widest row) * (th + max (bh, #rows)) + 1   — the screen measure incl. scrollback
      Inv09 t      : the C09 invariant (every state reachable without a text-area resize: Props/C09.v) *)
 From Coq Require Import ZArith NArith List Bool Lia.
-From IE Require Import Model.TermCore Model.AnsiTok Model.Cost Model.Alloc Proofs.TermProofs Proofs.CostProofs Proofs.AllocProofs Proofs.TicksProofs Proofs.MacroProofs Proofs.SixelCostProofs Proofs.LoadCostProofs Run.RunC03 Gen.MacroLimit.
+From IE Require Import Model.TermCore Model.AnsiTok Model.Cost Model.Alloc Proofs.TermProofs Proofs.CostProofs Proofs.AllocProofs Proofs.TicksProofs Proofs.MacroProofs Proofs.SixelCostProofs Proofs.LoadCostProofs Run.RunC03 Gen.MacroLimit Gen.SixelGen.
 From IE Require Model.Sixel Model.Font Model.SixelCost Lib.C05Lib Model.Attr Model.C05Buf Model.C05Bin Model.C05XBin Model.C05Idf Model.C05Tundra Model.C02Loaders Model.LoadCost.
 Import ListNotations.
 Local Open Scope Z_scope.
@@ -69,12 +69,17 @@ Proof. exact hexmacro_refuted_l. Qed.
    Model/Cost.v) a macro that invokes itself replays without end, whatever nesting depth is explored.  After the fix: macro_recursion_bounded below *)
 Theorem macro_recursion_before_fix_refuted : forall fuel, macro_chars_nolimit fuel [(1, [27; 91; 49; 42; 122])] 1 = None.
 Proof. exact macro_self_diverges. Qed.
-(* known class sixel repeat: `!n` calls parse_sixel_data n times *)
+(* the former known class sixel repeat: the loop of `!n` calls parse_sixel_data n times (true of the loop before and after the fix;
+   after the fix the loop is entered with n <= MAX_SIXEL_DIMENSION only: sixel_ticks_bound_abs below) *)
 Theorem sixel_repeat_linear : forall n s ch k, (exists s', fst (repeat_data_t n s ch k) = Sixel.Ok s') -> snd (repeat_data_t n s ch k) = k + Z.of_nat n.
 Proof. exact sixel_repeat_linear_l. Qed.
-(* known class sixel raster: 22 bytes ask for more than 1 GiB *)
-Theorem sixel_raster_refuted : 2 ^ 30 < raster_alloc [99999; 99999] /\ 2 ^ 30 < raster_alloc [2147483647].
+(* the former known class sixel raster: BEFORE the fix 22 bytes asked for more than 1 GiB (raster_alloc = the request of the old ReadSize arm);
+   after the fix such a header is the error InvalidPictureSize (sixel_raster_refused) *)
+Theorem sixel_raster_before_fix_refuted : 2 ^ 30 < raster_alloc [99999; 99999] /\ 2 ^ 30 < raster_alloc [2147483647].
 Proof. exact sixel_raster_refuted_l. Qed.
+Theorem sixel_raster_refused : forall s v h rest, Sixel.nums s = v :: h :: rest -> existsb (fun n => Sixel.MAX_SIXEL_DIMENSION <? n) rest = true ->
+  Sixel.finish_size s = Sixel.Err 3.
+Proof. exact sixel_raster_refused_l. Qed.
 
 (* ---- bounded without condition ------------------------------------------------------------------------------------------------------------ *)
 Theorem avatar_repeat_bound : forall n, n <= 255 -> avatar_repeat_iters n <= 255.
@@ -199,6 +204,19 @@ Theorem sixel_image_bound : forall hsl pal0 vs hs data w h d, Sixel.parse_from h
   let cs := data ++ [35] in let s0 := Sixel.init_state pal0 vs hs in let T := SixelCost.zlenN cs + SixelCost.rep_sum hsl s0 cs in
   SixelCost.zlenN d <= Z.max (6 * T + 6) (snd (SixelCost.decl_max hsl s0 cs)) * (4 * Z.max T (fst (SixelCost.decl_max hsl s0 cs))).
 Proof. exact sixel_image_bound_l. Qed.
+(* AFTER THE FIX (MAX_SIXEL_DIMENSION = 4096): the same three bounds without any number of the payload - every repeat group runs at most
+   MAX_SIXEL_DIMENSION times, picture_data never holds more than 4096 rows of 4 x 4096 bytes, the assembled image is at most 64 MiB *)
+Theorem sixel_ticks_bound_abs : forall hsl s cs,
+  0 <= snd (SixelCost.parse_chars_t hsl s cs 0) <= SixelCost.zlenN cs * (1 + Sixel.MAX_SIXEL_DIMENSION).
+Proof. exact sixel_ticks_bound_abs_l. Qed.
+Theorem sixel_alloc_bound_abs : forall hsl pal0 vs hs cs s', Sixel.parse_chars hsl (Sixel.init_state pal0 vs hs) cs = Sixel.Ok s' ->
+  SixelCost.sixel_bytes (Sixel.rows s') <= 4 * Sixel.MAX_SIXEL_DIMENSION * Sixel.MAX_SIXEL_DIMENSION.
+Proof. exact sixel_alloc_bound_abs_init_l. Qed.
+Theorem sixel_image_bound_abs : forall hsl pal0 vs hs data w h d, Sixel.parse_from hsl pal0 vs hs data = Sixel.Ok (w, h, d) ->
+  SixelCost.zlenN d <= 4 * Sixel.MAX_SIXEL_DIMENSION * Sixel.MAX_SIXEL_DIMENSION.
+Proof. exact sixel_image_bound_abs_l. Qed.
+Theorem sixel_limit_tied : Sixel.MAX_SIXEL_DIMENSION = SixelGen.MAX_SIXEL_DIMENSION_SRC /\ 4 * Sixel.MAX_SIXEL_DIMENSION * Sixel.MAX_SIXEL_DIMENSION = 2 ^ 26.
+Proof. split; reflexivity. Qed.
 
 (* ---- (e) binary loaders: the cell loops of the C05 / C02 loader models with the counters of Model/LoadCost.v ------------------------------------------------------------- *)
 (* BIN, ADF, uncompressed XBin (pair_loop): cells stored = pairs read (<= half the bytes); the loaded layer holds at most max(what was there, pairs + width) cells *)
